@@ -25,6 +25,53 @@ const void* yk_watch_ptr;
 uint32_t yk_watch_stores, yk_watch_loads;
 void* yk_thread_fn[4];
 uint32_t yk_threads_started;
+#ifdef YK_SEQ
+int32_t yk_cur = -1;
+uint8_t yk_draining;
+uint32_t yk_hooks_in_ctx;
+uint32_t yk_nctx;
+uint8_t yk_sched[YK_MAXCTX];
+uint32_t yk_ctx_len[YK_MAXCTX];
+uint8_t yk_ctx_fin[YK_MAXCTX];
+uint8_t yk_done[YK_NT];
+static uint32_t yk_fin_ctx[YK_NT];
+typedef int (*yk_thr_fn)(void);
+static yk_thr_fn yk_thr[YK_NT];
+void yk_thread(uint32_t i, void* fn) { if (i < YK_NT) yk_thr[i] = (yk_thr_fn)fn; }
+uint32_t yk_thread_done(uint32_t i) { return i < YK_NT ? yk_done[i] : 0; }
+uint32_t yk_ctx_of_finish(uint32_t i) { return i < YK_NT ? yk_fin_ctx[i] : 0; }
+static void yk_one_context(uint32_t t)
+{
+    yk_cur = (int32_t)t;
+    yk_hooks_in_ctx = 0;
+    int r = yk_thr[t]();
+    yk_cur = -1;
+    if (yk_nctx < YK_MAXCTX) { yk_sched[yk_nctx] = (uint8_t)t; yk_ctx_len[yk_nctx] = yk_hooks_in_ctx; yk_ctx_fin[yk_nctx] = r ? 0 : 1; }
+    if (!r) { yk_done[t] = 1; yk_fin_ctx[t] = yk_nctx; }
+    yk_nctx++;
+}
+/* ctx symbolic contexts (which thread runs, where it is pre-empted), then a deterministic fair continuation: the
+ * unfinished threads round-robin, pre-empted only where they wait/retry.  A thread that still has not finished then
+ * is reported (deadlock / lost wake-up / lock left held reachable within the bound). */
+void yk_run_threads(uint32_t ctx)
+{
+    for (uint32_t c = 0; c < ctx; c++) {
+        uint32_t left = 0;
+        for (uint32_t i = 0; i < YK_NT; i++) left += yk_done[i] ? 0 : 1;
+        if (left == 0) break;
+        uint32_t t = nondet_uint8();
+        YK_ASSUME(t < YK_NT && !yk_done[t]);
+        yk_one_context(t);
+    }
+    yk_draining = 1;
+    for (uint32_t r = 0; r < YK_DRAIN_ROUNDS; r++)
+        for (uint32_t t = 0; t < YK_NT; t++)
+            if (!yk_done[t]) yk_one_context(t);
+    for (uint32_t t = 0; t < YK_NT; t++)
+        YK_ASSERT(yk_done[t], "liveness: a thread did not finish in the fair continuation (deadlock / lock left held)");
+    yk_draining = 0;
+}
+#endif
 #ifndef YK_HAVE_SI_VTABLE
 uint8_t* yk_si_vtable_addr;
 #endif
